@@ -1,6 +1,11 @@
 (* Proofs about the unfolder model (Gotype/Unfold.v) against its L0 (Gotype/UnfoldSpec.v):
-   C13 (skipping unknown members, interface{} targets), C10 (extended events / by-reference
-   delivery), C14 (allocation bound), C17 (a completed document leaves nothing behind). *)
+     Part 0  the anonymous loops of skip_value / uf, named; unfolding equations
+     Part 1  C13  skipping the value of an unknown member (complete, incomplete)
+     Part 2  C13  interface{} targets hold the generic value of the stream
+     Part 3  C10  extended events and by-reference delivery are irrelevant
+     Part 4  C14  allocation is proportional to the events, announced lengths never enter
+     Part 5  C17  a completed document leaves nothing behind (sequencing)
+     Part 6  C11  direct route Fold -> Unfold for types without structs and interfaces *)
 From Coq Require Import List NArith ZArith Bool Lia.
 From Coq Require Import ZifyBool ZifyNat ZifyN.
 From SF Require Import Base.Prelude Base.PreludeProofs Core.Events Core.EventsProofs Core.AdapterProofs.
@@ -893,7 +898,7 @@ Lemma uf_map f t e old l bt r : under t = TMap e ->
   uf (S f) t old (EObjStart l bt :: r) = map_loop f e (is_refl e) (S (length r)) (map_start e old) r.
 Proof. intro H. rewrite uf_S, H. reflexivity. Qed.
 
-Lemma flatten_val s : flatten (TVal s false) = [EVal s].
+Lemma flatten_tval s : flatten (TVal s false) = [EVal s].
 Proof. destruct s; reflexivity. Qed.
 
 (* ---------- the slice loop on elements that are not handled by reflection ---------- *)
@@ -1002,7 +1007,7 @@ Proof.
   intros Hm Hwf Hs Hg Hf old rest.
   destruct bt; try (apply Hg; exact Hf);
     (destruct x as [s r| | | |]; try discriminate Hm; cbn [strict] in Hs; destruct r; try discriminate Hs;
-     rewrite flatten_val in *; cbn [length] in Hf; destruct f as [|f]; [lia|];
+     rewrite flatten_tval in *; cbn [length] in Hf; destruct f as [|f]; [lia|];
      cbn [tree_matches] in Hm; cbn [wf_tree] in Hwf;
      rewrite uf_S; cbn [gen_elem_type under app];
      destruct s as [| | |k z]; try discriminate Hm; try reflexivity;
@@ -1035,7 +1040,7 @@ Theorem generic_strict : forall t, strict t = true -> wf_tree t = true -> generi
 Proof.
   induction t as [s r|len bt es IH|len bt ms IH|bt es|bt ms] using tree_ind';
     intros Hs Hwf old rest fuel Hfuel; try discriminate Hs.
-  - cbn [strict] in Hs. destruct r; [discriminate|]. rewrite flatten_val in *.
+  - cbn [strict] in Hs. destruct r; [discriminate|]. rewrite flatten_tval in *.
     destruct fuel as [|f]; [cbn in Hfuel; lia|]. cbn [app]. rewrite uf_iface_val. reflexivity.
   - rewrite flatten_arr in *. cbn [length] in Hfuel. rewrite app_length in Hfuel. cbn [length] in Hfuel.
     destruct fuel as [|[|f]]; try lia.
@@ -1213,10 +1218,10 @@ Proof.
 Qed.
 Print Assumptions C10_unfold_byref.
 
-Definition deref (e : event) : event :=
+Definition deref_event (e : event) : event :=
   match e with EStrRef s => EVal (SStr s) | EKeyRef k => EKey k | _ => e end.
 
-Corollary C10_unfold_deref : forall t old evs, unfold_value t old (map deref evs) = unfold_value t old evs.
+Corollary C10_unfold_deref : forall t old evs, unfold_value t old (map deref_event evs) = unfold_value t old evs.
 Proof.
   intros t old evs. symmetry. apply C10_unfold_byref.
   induction evs as [|e evs IH]; constructor; [|exact IH]. destruct e; constructor.
@@ -1244,7 +1249,7 @@ Fixpoint gsize (v : gvalue) : nat :=
   end.
 
 Definition gsum (l : list gvalue) : nat := list_sum (map gsize l).
-Definition glen (v : gvalue) : nat := match v with GList l => length l | _ => O end.
+Definition nelems (v : gvalue) : nat := match v with GList l => length l | _ => O end.
 
 Lemma gsize_pos v : (1 <= gsize v)%nat.
 Proof. destruct v; cbn [gsize]; lia. Qed.
@@ -1279,7 +1284,7 @@ Proof.
   - apply Nat.ltb_ge in E. rewrite app_length. cbn [length]. lia.
 Qed.
 
-Lemma slice_final_glen wasnil cur : glen (slice_final wasnil cur) = length cur.
+Lemma slice_final_nelems wasnil cur : nelems (slice_final wasnil cur) = length cur.
 Proof. destruct cur; [destruct wasnil|]; reflexivity. Qed.
 
 Definition is_arr_end (evs : list event) : bool := match evs with EArrEnd :: _ => true | _ => false end.
@@ -1299,12 +1304,12 @@ Qed.
 Lemma slice_loop_prim_len f e wasnil : prim_kind e = true ->
   forall g cur spare idx evs v rest,
     slice_loop f e wasnil false g cur spare idx evs = UOk v rest -> (idx <= length cur)%nat ->
-    exists m, length evs = (m + 1 + length rest)%nat /\ glen v = Nat.max (length cur) (idx + m).
+    exists m, length evs = (m + 1 + length rest)%nat /\ nelems v = Nat.max (length cur) (idx + m).
 Proof.
   intro Hp. induction g as [|g IH]; intros cur spare idx evs v rest H Hi; [rewrite slice_loop_O in H; discriminate H|].
   destruct (is_arr_end evs) eqn:Ee.
   - destruct evs as [|[] p]; try discriminate Ee. rewrite slice_loop_S in H. injection H as <- <-.
-    exists O. cbn [length]. rewrite slice_final_glen. split; lia.
+    exists O. cbn [length]. rewrite slice_final_nelems. split; lia.
   - rewrite slice_loop_prim_step in H by exact Ee.
     match type of H with (match ?X with _ => _ end) = _ => destruct X as [v' r'|] eqn:E end; [|discriminate H].
     apply (uf_prim_one _ _ _ _ _ _ Hp) in E. destruct E as [[h' ->] _].
@@ -1320,7 +1325,7 @@ Theorem C14_slice_of_scalars : forall fuel t e old evs v rest,
   under t = TSlice e -> prim_kind e = true ->
   uf fuel t old evs = UOk v rest ->
   exists n, length evs = (n + 2 + length rest)%nat /\
-            (glen v <= Nat.max (Nat.max (glen old) (Z.to_nat max_initial_len)) n)%nat.
+            (nelems v <= Nat.max (Nat.max (nelems old) (Z.to_nat max_initial_len)) n)%nat.
 Proof.
   intros fuel t e old evs v rest U Hp H.
   destruct fuel as [|f]; [rewrite uf_O in H; discriminate H|].
@@ -1331,9 +1336,9 @@ Proof.
   apply (slice_loop_prim_len _ _ _ Hp) in H; [|lia].
   destruct H as (m & H1 & H2). exists m. cbn [length]. split; [lia|].
   rewrite H2. cbn [Nat.add].
-  assert (length cur <= Nat.max (glen old) (Z.to_nat max_initial_len))%nat; [|lia].
+  assert (length cur <= Nat.max (nelems old) (Z.to_nat max_initial_len))%nat; [|lia].
   unfold slice_start in Es. destruct old; try (injection Es as <- _ _; rewrite repeat_length; lia).
-  destruct (Z.max l 0 <? zlen vs); injection Es as <- _ _; cbn [glen]; [rewrite firstn_length|]; lia.
+  destruct (Z.max l 0 <? zlen vs); injection Es as <- _ _; cbn [nelems]; [rewrite firstn_length|]; lia.
 Qed.
 Print Assumptions C14_slice_of_scalars.
 
@@ -1942,7 +1947,7 @@ Qed.
 
 Lemma seq_val s : seq_at (TVal s false).
 Proof.
-  intros fuel. rewrite flatten_val. cbn [app].
+  intros fuel. rewrite flatten_tval. cbn [app].
   induction fuel as [|f IHf]; intros t old rest1 v r H; [rewrite uf_O in H; discriminate H|].
   destruct (unsup_cases t) as [U|[U|[U|[[k U]|[U|[[u U]|[[e U]|[[e U]|[fs U]]]]]]]]].
   - rewrite uf_S_unsup in H by exact U. discriminate H.
@@ -2097,3 +2102,1009 @@ Proof.
   - f_equal. rewrite <- El, flat_map_app. cbn [flat_map]. rewrite !app_length. lia.
 Qed.
 Print Assumptions C17_after_done.
+
+(* ====================================================================== *)
+(* Part 6: C11 (direct route) for types without structs and interfaces     *)
+(* ====================================================================== *)
+From SF Require Import Gotype.Fold Gotype.FoldProofs.
+
+(* bool, string, numbers, and pointers / slices / string-keyed maps of these, also as
+   defined (named) types where Go allows it *)
+Fixpoint simple (t : gtype) : bool :=
+  match t with
+  | TBool | TString | TNum _ => true
+  | TPtr u | TSlice u | TMap u => simple u
+  | TNamed u => match u with
+                | TBool | TString | TNum _ => true
+                | TSlice e | TMap e => simple e
+                | _ => false
+                end
+  | _ => false
+  end.
+
+(* keys strictly increasing: each key is smaller than all later ones *)
+Fixpoint ssorted (l : list bytes) : bool :=
+  match l with [] => true | a :: r => forallb (bytes_ltb a) r && ssorted r end.
+
+(* well-typed values of these types: numbers in the range of their kind, maps listed
+   sorted by key (as Types.v says) *)
+Fixpoint wt (t : gtype) (v : gvalue) {struct v} : bool :=
+  match under t, v with
+  | TBool, GBool _ => true
+  | TString, GStr _ => true
+  | TNum k, GNum z => nkind_ok k z
+  | TPtr _, GNil => true
+  | TPtr u, GPtr x => wt u x
+  | TSlice _, GNil => true
+  | TSlice u, GList l => forallb (wt u) l
+  | TMap _, GNil => true
+  | TMap u, GMap kvs => forallb (fun kv => wt u (snd kv)) kvs && ssorted (map fst kvs)
+  | _, _ => false
+  end.
+
+Definition pscalar (t : gtype) (v : gvalue) : scalar :=
+  match prim_scalar false t v with Some s => s | None => SNil end.
+Definition typed_bt (top : bool) (e : gtype) : btype :=
+  if top && gtype_eqb e (TNum KUint8) then BByte else prim_bt e.
+Definition typed_sc (top : bool) (e : gtype) (x : gvalue) : scalar :=
+  match typed_bt top e, xscalar e x with BByte, SNum _ z => SNum KByte z | _, s => s end.
+
+Definition typed_arr (top : bool) (e : gtype) (l : list gvalue) : list event :=
+  EArrStart (zlen l) (typed_bt top e) :: map (fun x => EVal (typed_sc top e x)) l ++ [EArrEnd].
+Definition typed_obj (e : gtype) (kvs : list (bytes * gvalue)) : list event :=
+  EObjStart (zlen kvs) (prim_bt e) :: flat_map (fun kv => [EKey (fst kv); EVal (xscalar e (snd kv))]) kvs ++ [EObjEnd].
+
+(* the (expanded) events Fold sends for a value of such a type; [top]: folded by the
+   top-level type switch *)
+Fixpoint xev (top : bool) (t : gtype) (v : gvalue) {struct t} : list event :=
+  match t with
+  | TBool | TString | TNum _ => [EVal (pscalar t v)]
+  | TPtr u => match v with GPtr x => xev false u x | _ => [EVal SNil] end
+  | TSlice e =>
+      if is_prim e then typed_arr top e (glist v)
+      else EArrStart (zlen (glist v)) BAny :: flat_map (xev false e) (glist v) ++ [EArrEnd]
+  | TMap e =>
+      if is_prim e then typed_obj e (gmap v)
+      else EObjStart (zlen (gmap v)) BAny ::
+           flat_map (fun kv => EKey (fst kv) ::
+                       (if is_prim e then [EVal (xscalar e (snd kv))] else xev false e (snd kv))) (gmap v) ++ [EObjEnd]
+  | TNamed u =>
+      match u with
+      | TBool | TString | TNum _ => [EVal (pscalar u v)]
+      | TSlice e =>
+          if top && is_prim e then typed_arr top e (glist v)
+          else EArrStart (zlen (glist v)) BAny :: flat_map (xev false e) (glist v) ++ [EArrEnd]
+      | TMap e =>
+          if top && is_prim e then typed_obj e (gmap v)
+          else EObjStart (zlen (gmap v)) BAny ::
+           flat_map (fun kv => EKey (fst kv) ::
+                       (if is_prim e then [EVal (xscalar e (snd kv))] else xev false e (snd kv))) (gmap v) ++ [EObjEnd]
+      | _ => []
+      end
+  | _ => []
+  end.
+
+(* the value of a member of a generic object: the map-key folder sends scalars with the kind
+   of their Go type *)
+Definition mev (e : gtype) (x : gvalue) : list event :=
+  if is_prim e then [EVal (xscalar e x)] else xev false e x.
+
+(* what unfolding these events into a zero target of the same type yields *)
+Fixpoint nv (t : gtype) (v : gvalue) {struct t} : gvalue :=
+  match t with
+  | TPtr u => match v with
+              | GPtr x => if is_nil_head (xev false u x) then GNil else GPtr (nv u x)
+              | _ => GNil
+              end
+  | TSlice e => match glist v with [] => GNil | l => GList (map (nv e) l) end
+  | TMap e => match gmap v with
+              | [] => if is_refl e then GMap [] else GNil
+              | kvs => GMap (map (fun kv => (fst kv, nv e (snd kv))) kvs)
+              end
+  | TNamed u =>
+      match u with
+      | TSlice e => match glist v with [] => GNil | l => GList (map (nv e) l) end
+      | TMap e => match gmap v with
+                  | [] => if is_refl e then GMap [] else GNil
+                  | kvs => GMap (map (fun kv => (fst kv, nv e (snd kv))) kvs)
+                  end
+      | _ => v
+      end
+  | _ => v
+  end.
+
+(* the definitions above were tested against the models with [vm_compute] on pointers to
+   pointers, nil and empty slices and maps, named slices, []byte at the top and nested *)
+
+(* ---------- scalars ---------- *)
+Lemma conv_evkind k z : nkind_ok k z = true -> conv (num_event_kind k) k z = z.
+Proof.
+  intro H. destruct k; try (apply conv_same_kind; exact H).
+  unfold conv. cbn [num_event_kind kind_float kind_signed kind_bits]. apply wraps_small; [lia|].
+  cbn [nkind_ok] in H. unfold in_s in H. lia.
+Qed.
+
+(* [s] is a scalar event that makes a target of type [e] hold [x] *)
+Definition scal_ok (e : gtype) (x : gvalue) (s : scalar) : Prop :=
+  forall f old rest, uf (S f) e old (EVal s :: rest) = UOk x rest.
+
+Lemma scal_ok_pscalar e x : is_prim (under e) = true -> wt e x = true -> scal_ok e x (pscalar (under e) x).
+Proof.
+  intros Hp Hw f old rest. unfold wt in Hw. destruct e; cbn [under is_prim] in *; try discriminate Hp;
+    try (destruct x; try discriminate Hw; rewrite uf_S; reflexivity).
+  - destruct x; try discriminate Hw. rewrite uf_S. cbn [under pscalar prim_scalar]. rewrite conv_evkind by exact Hw. reflexivity.
+  - destruct e; try discriminate Hp; destruct x; try discriminate Hw; rewrite uf_S; cbn [under pscalar prim_scalar];
+      rewrite ?conv_evkind by exact Hw; reflexivity.
+Qed.
+
+Lemma scal_ok_xscalar e x : is_prim e = true -> wt e x = true -> scal_ok e x (xscalar e x).
+Proof.
+  intros Hp Hw f old rest. unfold wt in Hw. destruct e; cbn [under is_prim] in *; try discriminate Hp;
+    destruct x; try discriminate Hw; rewrite uf_S; cbn [under xscalar]; rewrite ?conv_same_kind by exact Hw; reflexivity.
+Qed.
+
+Lemma scal_ok_typed top e x : is_prim e = true -> wt e x = true -> scal_ok e x (typed_sc top e x).
+Proof.
+  intros Hp Hw f old rest. unfold wt in Hw. destruct e; cbn [under is_prim] in *; try discriminate Hp;
+    destruct x; try discriminate Hw; unfold typed_sc, typed_bt.
+  - rewrite andb_false_r. rewrite uf_S. reflexivity.
+  - rewrite andb_false_r. rewrite uf_S. reflexivity.
+  - destruct top, k; cbn [andb gtype_eqb nkind_eqb nkind_code Z.eqb Pos.eqb prim_bt bt_of_kind xscalar];
+      rewrite uf_S; cbn [under];
+      first [rewrite conv_same_kind by exact Hw | rewrite conv_byte_uint8 by exact Hw]; reflexivity.
+Qed.
+
+Lemma nv_prim e x : is_prim (under e) = true -> nv e x = x.
+Proof. destruct e; try discriminate; try reflexivity. cbn [under]. destruct e; try discriminate; reflexivity. Qed.
+
+Lemma zero_prim e : is_prim (under e) = true -> is_refl e = false.
+Proof. unfold is_refl, prim_kind. destruct (under e); try discriminate; reflexivity. Qed.
+
+(* ---------- heads of the event lists ---------- *)
+Lemma is_nil_head_cons h tl : is_nil_head (h :: tl) = is_nil_ev h.
+Proof. reflexivity. Qed.
+
+Lemma wt_under_eq t t' v : under t = under t' -> wt t v = wt t' v.
+Proof. intro H. destruct v; cbn [wt]; rewrite H; reflexivity. Qed.
+
+Lemma wt_named u v : under u = u -> wt (TNamed u) v = wt u v.
+Proof. intro H. apply wt_under_eq. cbn [under]. symmetry. exact H. Qed.
+
+Lemma wt_prim_scalar e x : is_prim e = true -> wt e x = true ->
+  exists s, prim_scalar false e x = Some s /\ s <> SNil.
+Proof.
+  intros Hp Hw. unfold wt in Hw. destruct e; try discriminate Hp; destruct x; try discriminate Hw;
+    cbn [prim_scalar]; eexists; split; try reflexivity; discriminate.
+Qed.
+
+Lemma xev_head : forall t v top, simple t = true -> wt t v = true ->
+  exists h tl, xev top t v = h :: tl /\ starts_value h = true.
+Proof.
+  induction t; intros v top Hs Hw; try discriminate Hs; cbn [xev].
+  - eexists; eexists; split; reflexivity.
+  - eexists; eexists; split; reflexivity.
+  - eexists; eexists; split; reflexivity.
+  - unfold wt in Hw. cbn [under] in Hw. destruct v; try discriminate Hw.
+    + eexists; eexists; split; reflexivity.
+    + apply IHt; [exact Hs|exact Hw].
+  - destruct (is_prim t); eexists; eexists; split; reflexivity.
+  - destruct (is_prim t); eexists; eexists; split; reflexivity.
+  - cbn [simple] in Hs. destruct t; try discriminate Hs;
+      try (eexists; eexists; split; reflexivity);
+      destruct (top && is_prim t); eexists; eexists; split; reflexivity.
+Qed.
+
+(* a value whose events start with null is a nil pointer (possibly behind pointers) *)
+Lemma nil_xev_nv : forall t v top, simple t = true -> wt t v = true ->
+  is_nil_head (xev top t v) = true -> xev top t v = [EVal SNil] /\ nv t v = zero_of t.
+Proof.
+  induction t; intros v top Hs Hw Hn; try discriminate Hs; cbn [xev] in *.
+  - destruct (wt_prim_scalar TBool v eq_refl Hw) as (s & E & Hne). unfold pscalar in Hn. rewrite E in Hn.
+    destruct s; try discriminate Hn; contradiction.
+  - destruct (wt_prim_scalar TString v eq_refl Hw) as (s & E & Hne). unfold pscalar in Hn. rewrite E in Hn.
+    destruct s; try discriminate Hn; contradiction.
+  - destruct (wt_prim_scalar (TNum k) v eq_refl Hw) as (s & E & Hne). unfold pscalar in Hn. rewrite E in Hn.
+    destruct s; try discriminate Hn; contradiction.
+  - unfold wt in Hw. cbn [under] in Hw. destruct v; try discriminate Hw.
+    + split; reflexivity.
+    + fold (wt t v) in Hw. destruct (IHt v false Hs Hw Hn) as [E1 E2]. split; [exact E1|].
+      cbn [nv zero_of]. rewrite Hn. reflexivity.
+  - destruct (is_prim t); discriminate Hn.
+  - destruct (is_prim t); discriminate Hn.
+  - cbn [simple] in Hs. destruct t; try discriminate Hs;
+      rewrite wt_named in Hw by reflexivity.
+    + destruct (wt_prim_scalar TBool v eq_refl Hw) as (s & E & Hne). unfold pscalar in Hn. rewrite E in Hn.
+      destruct s; try discriminate Hn; contradiction.
+    + destruct (wt_prim_scalar TString v eq_refl Hw) as (s & E & Hne). unfold pscalar in Hn. rewrite E in Hn.
+      destruct s; try discriminate Hn; contradiction.
+    + destruct (wt_prim_scalar (TNum k) v eq_refl Hw) as (s & E & Hne). unfold pscalar in Hn. rewrite E in Hn.
+      destruct s; try discriminate Hn; contradiction.
+    + destruct (top && is_prim t); discriminate Hn.
+    + destruct (top && is_prim t); discriminate Hn.
+Qed.
+
+(* ---------- the loops on the events of a list of values, into a zero target ---------- *)
+Lemma sl_oldel_fill e refl done k :
+  sl_oldel e refl (done ++ repeat (zero_of e) k) [] (length done) = zero_of e.
+Proof.
+  unfold sl_oldel, sl_have. rewrite app_length, repeat_length.
+  destruct k as [|k].
+  - replace (length done <? length done + 0)%nat with false by (symmetry; apply Nat.ltb_ge; lia).
+    destruct refl; reflexivity.
+  - replace (length done <? length done + S k)%nat with true by (symmetry; apply Nat.ltb_lt; lia).
+    rewrite app_nth2 by lia. rewrite Nat.sub_diag. reflexivity.
+Qed.
+
+(* what the events [ev x] of an element must satisfy *)
+Definition elem_ok (f : nat) (e : gtype) (refl : bool) (ev : gvalue -> list event) (x : gvalue) : Prop :=
+  (exists h tl, ev x = h :: tl /\ starts_value h = true) /\
+  (forall rest, uf f e (zero_of e) (ev x ++ rest) = UOk (nv e x) rest) /\
+  (refl = true -> is_nil_head (ev x) = true -> ev x = [EVal SNil] /\ nv e x = zero_of e).
+
+Lemma slice_loop_fill2 f e wasnil refl (ev : gvalue -> list event) l :
+  Forall (elem_ok f e refl ev) l ->
+  forall g done k rest, (length l < g)%nat ->
+    slice_loop f e wasnil refl g (done ++ repeat (zero_of e) k) [] (length done)
+               (flat_map ev l ++ EArrEnd :: rest)
+    = UOk (slice_final wasnil (done ++ map (nv e) l ++ repeat (zero_of e) (k - length l))) rest.
+Proof.
+  induction 1 as [|x l Hx Hl IH]; intros g done k rest Hg.
+  - destruct g as [|g]; [cbn in Hg; lia|]. rewrite slice_loop_S.
+    cbn [flat_map app map length]. rewrite Nat.sub_0_r. reflexivity.
+  - destruct g as [|g]; [cbn in Hg; lia|].
+    cbn [flat_map]. rewrite <- app_assoc.
+    destruct Hx as ((h & tl & E & Hh) & Hu & Hn).
+    specialize (Hu (flat_map ev l ++ EArrEnd :: rest)).
+    assert (Hcont : slice_loop f e wasnil refl g (sl_put (done ++ repeat (zero_of e) k) (length done) (nv e x))
+                      (sl_spare (done ++ repeat (zero_of e) k) [] (length done)) (S (length done))
+                      (flat_map ev l ++ EArrEnd :: rest)
+                    = UOk (slice_final wasnil (done ++ map (nv e) (x :: l) ++ repeat (zero_of e) (k - length (x :: l)))) rest).
+    { rewrite sl_put_fill, sl_spare_nil.
+      replace (S (length done)) with (length (done ++ [nv e x])) by (rewrite app_length; cbn [length]; lia).
+      rewrite IH by (cbn [length] in Hg; lia).
+      cbn [map length app]. rewrite <- app_assoc. cbn [app].
+      replace (k - 1 - length l)%nat with (k - S (length l))%nat by lia. reflexivity. }
+    rewrite E in *. cbn [app] in *.
+    rewrite slice_loop_step by exact Hh. rewrite sl_oldel_fill.
+    destruct (refl && is_nil_ev h) eqn:En.
+    + apply andb_true_iff in En. destruct En as [-> En].
+      destruct (Hn eq_refl En) as [E2 E3]. injection E2 as -> ->. cbn [app].
+      rewrite E3 in Hcont. exact Hcont.
+    + rewrite Hu. exact Hcont.
+Qed.
+
+Lemma map_loop_fill2 f e refl (ev : gvalue -> list event) kvs :
+  Forall (fun kv => elem_ok f e refl ev (snd kv)) kvs ->
+  forall g cur rest, (length kvs < g)%nat ->
+    map_loop f e refl g cur (flat_map (fun kv => EKey (fst kv) :: ev (snd kv)) kvs ++ EObjEnd :: rest)
+    = UOk (map_final (mstep cur (map (fun kv => (fst kv, nv e (snd kv))) kvs))) rest.
+Proof.
+  induction 1 as [|[k x] kvs Hx Hl IH]; intros g cur rest Hg.
+  - destruct g as [|g]; [cbn in Hg; lia|]. rewrite map_loop_S. reflexivity.
+  - destruct g as [|g]; [cbn in Hg; lia|].
+    cbn [flat_map fst snd]. rewrite <- !app_comm_cons, <- app_assoc.
+    change (EKey k) with (key_event k false). rewrite map_loop_key.
+    cbn [snd] in Hx. destruct Hx as ((h & tl & E & Hh) & Hu & Hn).
+    specialize (Hu (flat_map (fun kv => EKey (fst kv) :: ev (snd kv)) kvs ++ EObjEnd :: rest)).
+    cbn [map fst snd]. rewrite mstep_cons.
+    rewrite E in *. cbn [app] in *.
+    destruct (refl && is_nil_ev h) eqn:En.
+    + apply andb_true_iff in En. destruct En as [-> En].
+      destruct (Hn eq_refl En) as [E2 E3]. injection E2 as -> ->. cbn [app].
+      rewrite E3. apply IH. cbn [length] in Hg; lia.
+    + rewrite Hu. apply IH. cbn [length] in Hg; lia.
+Qed.
+
+(* ---------- inserting strictly increasing keys ---------- *)
+Lemma bytes_ltb_asym : forall a b, bytes_ltb a b = true -> bytes_eqb b a = false /\ bytes_ltb b a = false.
+Proof.
+  induction a as [|x a IH]; intros [|y b] H; cbn [bytes_ltb] in *; try discriminate H; try (split; reflexivity).
+  unfold bytes_eqb. cbn [list_eqb].
+  destruct (x <? y) eqn:E1.
+  - replace (y <? x) with false by lia. replace (y =? x) with false by lia. split; reflexivity.
+  - destruct (y <? x) eqn:E2; [discriminate H|].
+    destruct (IH b H) as [H1 H2]. replace (y =? x) with true by lia. cbn [andb]. split; [exact H1|exact H2].
+Qed.
+
+Lemma map_put_last k v m : forallb (fun kv => bytes_ltb (fst kv) k) m = true -> map_put k v m = m ++ [(k, v)].
+Proof.
+  induction m as [|[k' v'] m IH]; intro H; [reflexivity|].
+  cbn [forallb fst] in H. apply andb_true_iff in H. destruct H as [H1 H2].
+  destruct (bytes_ltb_asym _ _ H1) as [E1 E2].
+  cbn [map_put]. rewrite E1, E2, (IH H2). reflexivity.
+Qed.
+
+Lemma put_all_sorted : forall kvs m,
+  ssorted (map fst kvs) = true ->
+  forallb (fun kv' => forallb (fun kv => bytes_ltb (fst kv') (fst kv)) kvs) m = true ->
+  put_all kvs m = m ++ kvs.
+Proof.
+  induction kvs as [|[k v] kvs IH]; intros m Hs Hm; [cbn; rewrite app_nil_r; reflexivity|].
+  cbn [map fst ssorted] in Hs. apply andb_true_iff in Hs. destruct Hs as [Hk Hs].
+  unfold put_all. cbn [fold_left fst snd]. fold (put_all kvs (map_put k v m)).
+  rewrite map_put_last.
+  - rewrite IH; [rewrite <- app_assoc; reflexivity|exact Hs|].
+    rewrite forallb_app'. apply andb_true_iff. split.
+    + rewrite forallb_forall in *. intros kv' Hin. specialize (Hm kv' Hin).
+      cbn [forallb] in Hm. apply andb_true_iff in Hm. tauto.
+    + cbn [forallb fst]. rewrite andb_true_r. rewrite forallb_map in Hk. exact Hk.
+  - rewrite forallb_forall in *. intros kv' Hin. specialize (Hm kv' Hin).
+    cbn [forallb fst] in Hm. apply andb_true_iff in Hm. tauto.
+Qed.
+
+Lemma put_all_sorted_nil kvs : ssorted (map fst kvs) = true -> put_all kvs [] = kvs.
+Proof. intro H. apply (put_all_sorted kvs [] H). reflexivity. Qed.
+
+(* ---------- slices and maps into a nil target ---------- *)
+Lemma ftsize_pos t : (1 <= ftsize t)%nat.
+Proof. destruct t; cbn [ftsize]; lia. Qed.
+
+Lemma flat_map_length_ge {A} (ev : A -> list event) l :
+  Forall (fun x => exists h tl, ev x = h :: tl /\ starts_value h = true) l ->
+  (length l <= length (flat_map ev l))%nat.
+Proof.
+  induction 1 as [|x l (h & tl & E & _) _ IH]; [cbn; lia|].
+  cbn [flat_map length]. rewrite app_length, E. cbn [length]. lia.
+Qed.
+
+Lemma uf_slice_zero f t e bt ev l rest :
+  under t = TSlice e -> Forall (elem_ok f e (is_refl e) ev) l ->
+  uf (S f) t GNil (EArrStart (zlen l) bt :: flat_map ev l ++ EArrEnd :: rest)
+  = UOk (match l with [] => GNil | _ => GList (map (nv e) l) end) rest.
+Proof.
+  intros U Hl. rewrite (uf_slice _ _ e) by exact U. cbn [slice_start].
+  pose proof (slice_loop_fill2 f e (Z.max (zlen l) 0 =? 0) (is_refl e) ev l Hl
+                (S (length (flat_map ev l ++ EArrEnd :: rest))) []
+                (Z.to_nat (Z.min (Z.max (zlen l) 0) max_initial_len)) rest) as L.
+  cbn [app length] in L. rewrite L.
+  - replace (Z.to_nat (Z.min (Z.max (zlen l) 0) max_initial_len) - length l)%nat with O
+      by (unfold zlen, max_initial_len; lia).
+    cbn [repeat]. rewrite app_nil_r. destruct l as [|x l]; reflexivity.
+  - rewrite app_length. cbn [length].
+    assert (length l <= length (flat_map ev l))%nat; [|lia].
+    apply flat_map_length_ge. eapply Forall_impl; [|exact Hl]. intros x Hx. apply Hx.
+Qed.
+
+Lemma uf_map_zero f t e n bt ev kvs rest :
+  under t = TMap e -> Forall (fun kv => elem_ok f e (is_refl e) ev (snd kv)) kvs ->
+  ssorted (map fst kvs) = true ->
+  uf (S f) t GNil (EObjStart n bt :: flat_map (fun kv => EKey (fst kv) :: ev (snd kv)) kvs ++ EObjEnd :: rest)
+  = UOk (match kvs with
+         | [] => if is_refl e then GMap [] else GNil
+         | _ => GMap (map (fun kv => (fst kv, nv e (snd kv))) kvs)
+         end) rest.
+Proof.
+  intros U Hl Hs. rewrite (uf_map _ _ e) by exact U.
+  rewrite (map_loop_fill2 f e (is_refl e) ev kvs Hl).
+  - unfold map_start. destruct kvs as [|kv kvs]; [destruct (is_refl e); reflexivity|].
+    unfold mstep. cbn [map]. f_equal. cbn [map_final]. f_equal.
+    replace (opt_map (if is_refl e then Some [] else None)) with (@nil (bytes * gvalue)) by (destruct (is_refl e); reflexivity).
+    apply (put_all_sorted_nil (map (fun kv0 => (fst kv0, nv e (snd kv0))) (kv :: kvs))).
+    rewrite map_map. cbn [fst]. exact Hs.
+  - rewrite app_length. cbn [length].
+    assert (length kvs <= length (flat_map (fun kv => EKey (fst kv) :: ev (snd kv)) kvs))%nat; [|lia].
+    clear. induction kvs as [|kv kvs IH]; [cbn; lia|]. cbn [flat_map]. rewrite app_length. cbn [length]. lia.
+Qed.
+
+Lemma flat_map_single {A} (g : A -> event) l : flat_map (fun x => [g x]) l = map g l.
+Proof. induction l as [|x l IH]; [reflexivity|]. cbn [flat_map map app]. rewrite IH. reflexivity. Qed.
+
+Lemma elem_ok_scalar f e (sc : gvalue -> scalar) x :
+  is_prim e = true -> scal_ok e x (sc x) -> elem_ok (S f) e (is_refl e) (fun y => [EVal (sc y)]) x.
+Proof.
+  intros Hp Hs. split; [|split].
+  - eexists; eexists; split; reflexivity.
+  - intro rest. cbn [app]. rewrite nv_prim by (destruct e; try discriminate Hp; exact Hp). apply Hs.
+  - rewrite zero_prim by (destruct e; try discriminate Hp; exact Hp). discriminate.
+Qed.
+
+(* the unfolder on the events of a value, into the zero value of the value's type *)
+Definition unfold_at (F : nat) : Prop :=
+  forall t v top rest, simple t = true -> wt t v = true -> (ftsize t <= F)%nat ->
+    uf F t (zero_of t) (xev top t v ++ rest) = UOk (nv t v) rest.
+
+Lemma elem_ok_xev f e x : unfold_at f -> simple e = true -> wt e x = true -> (ftsize e <= f)%nat ->
+  elem_ok f e (is_refl e) (xev false e) x.
+Proof.
+  intros IH Hs Hw Hf. split; [|split].
+  - apply xev_head; assumption.
+  - intro rest. apply IH; assumption.
+  - intros _ Hn. apply (nil_xev_nv e x false Hs Hw Hn).
+Qed.
+
+Lemma wt_slice t e v : under t = TSlice e -> wt t v = true ->
+  forallb (wt e) (glist v) = true /\ (v = GNil \/ v = GList (glist v)).
+Proof.
+  intros U H. destruct v; cbn [wt] in H; rewrite U in H; try discriminate H; cbn [glist]; auto.
+Qed.
+
+Lemma wt_map t e v : under t = TMap e -> wt t v = true ->
+  forallb (fun kv => wt e (snd kv)) (gmap v) = true /\ ssorted (map fst (gmap v)) = true /\
+  (v = GNil \/ v = GMap (gmap v)).
+Proof.
+  intros U H. destruct v; cbn [wt] in H; rewrite U in H; try discriminate H; cbn [gmap]; auto.
+  apply andb_true_iff in H. tauto.
+Qed.
+
+Lemma uf_typed_arr f t e top v rest :
+  under t = TSlice e -> is_prim e = true -> wt t v = true ->
+  uf (S (S f)) t GNil (typed_arr top e (glist v) ++ rest)
+  = UOk (match glist v with [] => GNil | l => GList (map (nv e) l) end) rest.
+Proof.
+  intros U Hp Hw. destruct (wt_slice _ _ _ U Hw) as [Hl _].
+  unfold typed_arr. cbn [app]. rewrite <- app_assoc. cbn [app].
+  rewrite <- (flat_map_single (fun x => EVal (typed_sc top e x))).
+  etransitivity; [apply (uf_slice_zero (S f) t e); [exact U|]|destruct (glist v); reflexivity].
+  apply Forall_forall. intros x Hx. rewrite forallb_forall in Hl.
+  apply (elem_ok_scalar f e (typed_sc top e)); [exact Hp|]. apply scal_ok_typed; auto.
+Qed.
+
+Lemma uf_typed_obj f t e v rest :
+  under t = TMap e -> is_prim e = true -> wt t v = true ->
+  uf (S (S f)) t GNil (typed_obj e (gmap v) ++ rest)
+  = UOk (match gmap v with
+         | [] => if is_refl e then GMap [] else GNil
+         | kvs => GMap (map (fun kv => (fst kv, nv e (snd kv))) kvs)
+         end) rest.
+Proof.
+  intros U Hp Hw. destruct (wt_map _ _ _ U Hw) as (Hl & Hs & _).
+  unfold typed_obj. cbn [app]. rewrite <- app_assoc. cbn [app].
+  etransitivity; [apply (uf_map_zero (S f) t e _ _ (fun y => [EVal (xscalar e y)])); [exact U| |exact Hs]
+                 |destruct (gmap v); reflexivity].
+  apply Forall_forall. intros x Hx. rewrite forallb_forall in Hl.
+  apply (elem_ok_scalar f e (xscalar e)); [exact Hp|]. apply scal_ok_xscalar; auto.
+Qed.
+
+Lemma uf_generic_arr f t e v rest :
+  unfold_at f -> under t = TSlice e -> simple e = true -> (ftsize e <= f)%nat -> wt t v = true ->
+  uf (S f) t GNil ((EArrStart (zlen (glist v)) BAny :: flat_map (xev false e) (glist v) ++ [EArrEnd]) ++ rest)
+  = UOk (match glist v with [] => GNil | l => GList (map (nv e) l) end) rest.
+Proof.
+  intros IH U Hs Hf Hw. destruct (wt_slice _ _ _ U Hw) as [Hl _].
+  cbn [app]. rewrite <- app_assoc. cbn [app].
+  etransitivity; [apply (uf_slice_zero f t e); [exact U|]|destruct (glist v); reflexivity].
+  apply Forall_forall. intros x Hx. rewrite forallb_forall in Hl. apply elem_ok_xev; auto.
+Qed.
+
+Lemma elem_ok_mev f e x : unfold_at f -> simple e = true -> wt e x = true -> (ftsize e <= f)%nat ->
+  elem_ok f e (is_refl e) (mev e) x.
+Proof.
+  intros IH Hs Hw Hf. unfold mev. destruct (is_prim e) eqn:Hp.
+  - destruct f as [|f]; [pose proof (ftsize_pos e); lia|].
+    apply (elem_ok_scalar f e (xscalar e)); [exact Hp|]. apply scal_ok_xscalar; assumption.
+  - apply (elem_ok_xev f e x); assumption.
+Qed.
+
+Lemma uf_generic_obj f t e v rest :
+  unfold_at f -> under t = TMap e -> simple e = true -> (ftsize e <= f)%nat -> wt t v = true ->
+  uf (S f) t GNil ((EObjStart (zlen (gmap v)) BAny ::
+                     flat_map (fun kv => EKey (fst kv) ::
+                                 (if is_prim e then [EVal (xscalar e (snd kv))] else xev false e (snd kv))) (gmap v)
+                     ++ [EObjEnd]) ++ rest)
+  = UOk (match gmap v with
+         | [] => if is_refl e then GMap [] else GNil
+         | kvs => GMap (map (fun kv => (fst kv, nv e (snd kv))) kvs)
+         end) rest.
+Proof.
+  intros IH U Hs Hf Hw. destruct (wt_map _ _ _ U Hw) as (Hl & Hk & _).
+  cbn [app]. rewrite <- app_assoc. cbn [app].
+  etransitivity; [apply (uf_map_zero f t e _ _ (mev e)); [exact U| |exact Hk]|destruct (gmap v); reflexivity].
+  apply Forall_forall. intros x Hx. rewrite forallb_forall in Hl. apply elem_ok_mev; auto.
+Qed.
+
+
+Theorem unfold_all : forall F, unfold_at F.
+Proof.
+  induction F as [|f IH]; intros t v top rest Hs Hw Hf; [pose proof (ftsize_pos t); lia|].
+  destruct t; try discriminate Hs.
+  - cbn [xev zero_of nv app]. apply (scal_ok_pscalar TBool v eq_refl Hw).
+  - cbn [xev zero_of nv app]. apply (scal_ok_pscalar TString v eq_refl Hw).
+  - cbn [xev zero_of nv app]. apply (scal_ok_pscalar (TNum k) v eq_refl Hw).
+  - (* pointer *)
+    cbn [simple] in Hs. cbn [ftsize] in Hf.
+    assert (Hv : v = GNil \/ exists x, v = GPtr x /\ wt t x = true).
+    { destruct v; cbn [wt under] in Hw; try discriminate Hw; eauto. }
+    destruct Hv as [->|(x & -> & Hx)]; cbn [xev zero_of nv].
+    + cbn [app]. rewrite (uf_S_ptr_gen _ _ t) by reflexivity. reflexivity.
+    + rewrite (uf_S_ptr_gen _ _ t) by reflexivity.
+      destruct (xev_head t x false Hs Hx) as (h & tl & E & Hh).
+      assert (En : is_nil_head (xev false t x ++ rest) = is_nil_head (xev false t x)) by (rewrite E; reflexivity).
+      rewrite En. destruct (is_nil_head (xev false t x)) eqn:Hn.
+      * destruct (nil_xev_nv t x false Hs Hx Hn) as [E1 _]. rewrite E1. reflexivity.
+      * rewrite (IH t x false rest Hs Hx) by lia. reflexivity.
+  - (* slice *)
+    cbn [simple] in Hs. cbn [ftsize] in Hf. cbn [xev zero_of nv].
+    destruct (is_prim t) eqn:Hp.
+    + destruct f as [|f]; [pose proof (ftsize_pos t); lia|]. apply uf_typed_arr; auto.
+    + apply uf_generic_arr; auto. lia.
+  - (* map *)
+    cbn [simple] in Hs. cbn [ftsize] in Hf. cbn [xev zero_of nv].
+    destruct (is_prim t) eqn:Hp.
+    + destruct f as [|f]; [pose proof (ftsize_pos t); lia|]. apply uf_typed_obj; auto.
+    + pose proof (uf_generic_obj f (TMap t) t v rest IH eq_refl Hs ltac:(lia) Hw) as L.
+      rewrite Hp in L. exact L.
+  - (* named types *)
+    cbn [simple] in Hs. cbn [ftsize] in Hf. destruct t; try discriminate Hs.
+    + cbn [xev zero_of nv app]. apply (scal_ok_pscalar (TNamed TBool) v eq_refl Hw).
+    + cbn [xev zero_of nv app]. apply (scal_ok_pscalar (TNamed TString) v eq_refl Hw).
+    + cbn [xev zero_of nv app]. apply (scal_ok_pscalar (TNamed (TNum k)) v eq_refl Hw).
+    + cbn [ftsize] in Hf. cbn [xev zero_of nv].
+      destruct (top && is_prim t) eqn:Hp.
+      * apply andb_true_iff in Hp. destruct Hp as [_ Hp].
+        destruct f as [|f]; [lia|]. apply uf_typed_arr; auto.
+      * apply uf_generic_arr; auto. lia.
+    + cbn [ftsize] in Hf. cbn [xev zero_of nv].
+      destruct (top && is_prim t) eqn:Hp.
+      * apply andb_true_iff in Hp. destruct Hp as [_ Hp].
+        destruct f as [|f]; [lia|]. apply uf_typed_obj; auto.
+      * apply uf_generic_obj; auto. lia.
+Qed.
+
+(* ---------- the result is deeply equal to the value ---------- *)
+Definition deq_list (f : nat) (u : gtype) :=
+  fix go (l1 l2 : list gvalue) : bool :=
+    match l1, l2 with
+    | [], [] => true
+    | x :: r1, y :: r2 => deep_eq f u x y && go r1 r2
+    | _, _ => false
+    end.
+Definition deq_map (f : nat) (u : gtype) :=
+  fix go (l1 l2 : list (bytes * gvalue)) : bool :=
+    match l1, l2 with
+    | [], [] => true
+    | (k1, x) :: r1, (k2, y) :: r2 => bytes_eqb k1 k2 && deep_eq f u x y && go r1 r2
+    | _, _ => false
+    end.
+Definition deq_fields (f : nat) :=
+  fix go (fs : list (bytes * bytes * gtype)) (l1 l2 : list gvalue) : bool :=
+    match fs, l1, l2 with
+    | [], [], [] => true
+    | (_, _, ft) :: fr, x :: r1, y :: r2 => deep_eq f ft x y && go fr r1 r2
+    | _, _, _ => false
+    end.
+
+Lemma deep_eq_S f t a b :
+  deep_eq (S f) t a b =
+  match under t, a, b with
+  | TBool, GBool x, GBool y => Bool.eqb x y
+  | TString, GStr x, GStr y => bytes_eqb x y
+  | TNum _, GNum x, GNum y => x =? y
+  | TPtr _, GNil, GNil => true
+  | TPtr u, GPtr x, GPtr y => deep_eq f u x y
+  | TPtr u, GPtr x, GNil | TPtr u, GNil, GPtr x => opt_cv_eqb (spec_fold (S f) u x) (Some CNil)
+  | TIface, GNil, GNil => true
+  | TIface, GIface t1 v1, GNil | TIface, GNil, GIface t1 v1 => opt_cv_eqb (spec_fold (S f) t1 v1) (Some CNil)
+  | (TMapK _ | TUnsup), _, _ => true
+  | TIface, GIface t1 v1, GIface t2 v2 => opt_cv_eqb (spec_fold (S f) t1 v1) (spec_fold (S f) t2 v2)
+  | (TSlice _ | TMap _), GNil, GNil => true
+  | TSlice _, GNil, GList [] | TSlice _, GList [], GNil => true
+  | TMap _, GNil, GMap [] | TMap _, GMap [], GNil => true
+  | (TSlice u | TArray _ u), GList l1, GList l2 => deq_list f u l1 l2
+  | TMap u, GMap m1, GMap m2 => deq_map f u m1 m2
+  | TStruct fs, GStruct v1, GStruct v2 => deq_fields f fs v1 v2
+  | _, _, _ => false
+  end.
+Proof. reflexivity. Qed.
+
+Lemma spec_fold_ptr_nil f u : spec_fold (S f) (TPtr u) GNil = Some CNil.
+Proof. reflexivity. Qed.
+Lemma spec_fold_ptr_S f u x : spec_fold (S f) (TPtr u) (GPtr x) = spec_fold f u x.
+Proof. reflexivity. Qed.
+
+(* a value whose events start with null folds to null *)
+Lemma spec_null : forall t v top F, simple t = true -> wt t v = true ->
+  is_nil_head (xev top t v) = true -> (ftsize t <= F)%nat -> spec_fold F t v = Some CNil.
+Proof.
+  induction t; intros v top F Hs Hw Hn Hf; try discriminate Hs; cbn [xev] in *.
+  - destruct (wt_prim_scalar TBool v eq_refl Hw) as (s & E & Hne). unfold pscalar in Hn. rewrite E in Hn.
+    destruct s; try discriminate Hn; contradiction.
+  - destruct (wt_prim_scalar TString v eq_refl Hw) as (s & E & Hne). unfold pscalar in Hn. rewrite E in Hn.
+    destruct s; try discriminate Hn; contradiction.
+  - destruct (wt_prim_scalar (TNum k) v eq_refl Hw) as (s & E & Hne). unfold pscalar in Hn. rewrite E in Hn.
+    destruct s; try discriminate Hn; contradiction.
+  - cbn [ftsize] in Hf. destruct F as [|f]; [lia|].
+    unfold wt in Hw. cbn [under] in Hw. destruct v; try discriminate Hw.
+    + apply spec_fold_ptr_nil.
+    + fold (wt t v) in Hw. rewrite spec_fold_ptr_S. apply (IHt v false f Hs Hw Hn). lia.
+  - destruct (is_prim t); discriminate Hn.
+  - destruct (is_prim t); discriminate Hn.
+  - cbn [simple] in Hs. destruct t; try discriminate Hs; rewrite wt_named in Hw by reflexivity.
+    + destruct (wt_prim_scalar TBool v eq_refl Hw) as (s & E & Hne). unfold pscalar in Hn. rewrite E in Hn.
+      destruct s; try discriminate Hn; contradiction.
+    + destruct (wt_prim_scalar TString v eq_refl Hw) as (s & E & Hne). unfold pscalar in Hn. rewrite E in Hn.
+      destruct s; try discriminate Hn; contradiction.
+    + destruct (wt_prim_scalar (TNum k) v eq_refl Hw) as (s & E & Hne). unfold pscalar in Hn. rewrite E in Hn.
+      destruct s; try discriminate Hn; contradiction.
+    + destruct (top && is_prim t); discriminate Hn.
+    + destruct (top && is_prim t); discriminate Hn.
+Qed.
+
+(* the shapes of simple types *)
+Inductive simple_shape : gtype -> Prop :=
+| ss_prim t : is_prim (under t) = true -> simple_shape t
+| ss_ptr u : simple u = true -> simple_shape (TPtr u)
+| ss_slice t e : under t = TSlice e -> simple e = true -> (ftsize e < ftsize t)%nat -> simple_shape t
+| ss_map t e : under t = TMap e -> simple e = true -> (ftsize e < ftsize t)%nat -> simple_shape t.
+
+Lemma simple_cases t : simple t = true -> simple_shape t.
+Proof.
+  destruct t; intro H; try discriminate H; cbn [simple] in H.
+  - apply ss_prim; reflexivity.
+  - apply ss_prim; reflexivity.
+  - apply ss_prim; reflexivity.
+  - apply ss_ptr; exact H.
+  - apply (ss_slice _ t); [reflexivity|exact H|cbn [ftsize]; lia].
+  - apply (ss_map _ t); [reflexivity|exact H|cbn [ftsize]; lia].
+  - destruct t; try discriminate H.
+    + apply ss_prim; reflexivity.
+    + apply ss_prim; reflexivity.
+    + apply ss_prim; reflexivity.
+    + apply (ss_slice _ t); [reflexivity|exact H|cbn [ftsize]; lia].
+    + apply (ss_map _ t); [reflexivity|exact H|cbn [ftsize]; lia].
+Qed.
+
+Lemma nv_slice t e v : simple t = true -> under t = TSlice e ->
+  nv t v = match glist v with [] => GNil | l => GList (map (nv e) l) end.
+Proof.
+  intros Hs U. destruct t; try discriminate U; cbn [under] in U.
+  - injection U as ->. reflexivity.
+  - subst t. reflexivity.
+Qed.
+
+Lemma nv_map t e v : simple t = true -> under t = TMap e ->
+  nv t v = match gmap v with
+           | [] => if is_refl e then GMap [] else GNil
+           | kvs => GMap (map (fun kv => (fst kv, nv e (snd kv))) kvs)
+           end.
+Proof.
+  intros Hs U. destruct t; try discriminate U; cbn [under] in U.
+  - injection U as ->. reflexivity.
+  - subst t. reflexivity.
+Qed.
+
+(* Fold drops nothing from values of these types *)
+Lemma omit_view_simple : forall F t v, simple t = true -> omit_view F t v = v.
+Proof.
+  induction F as [|f IH]; intros t v Hs; [reflexivity|].
+  destruct (simple_cases t Hs) as [t Hp|u Hu|t e U He _|t e U He _]; cbn [omit_view].
+  - destruct (under t); try discriminate Hp; destruct v; reflexivity.
+  - cbn [under]. destruct v; try reflexivity. rewrite IH by exact Hu. reflexivity.
+  - rewrite U. destruct v; try reflexivity. f_equal.
+    rewrite <- (map_id vs) at 2. apply map_ext. intro x. apply IH. exact He.
+  - rewrite U. destruct v; try reflexivity. f_equal.
+    rewrite <- (map_id kvs) at 2. apply map_ext. intros [k x]. cbn [fst snd]. rewrite IH by exact He. reflexivity.
+Qed.
+
+Lemma deq_list_nv f e l :
+  (forall x, In x l -> deep_eq f e x (nv e x) = true) -> deq_list f e l (map (nv e) l) = true.
+Proof.
+  induction l as [|x l IH]; intro H; [reflexivity|].
+  cbn [map deq_list]. rewrite H by (left; reflexivity). cbn [andb]. apply IH. intros y Hy. apply H. right. exact Hy.
+Qed.
+
+Lemma deq_map_nv f e kvs :
+  (forall kv, In kv kvs -> deep_eq f e (snd kv) (nv e (snd kv)) = true) ->
+  deq_map f e kvs (map (fun kv => (fst kv, nv e (snd kv))) kvs) = true.
+Proof.
+  induction kvs as [|[k x] l IH]; intro H; [reflexivity|].
+  cbn [map deq_map fst snd]. rewrite bytes_eqb_refl.
+  pose proof (H (k, x) (or_introl eq_refl)) as Hx. cbn [snd] in Hx. rewrite Hx.
+  cbn [andb]. apply IH. intros y Hy. apply H. right. exact Hy.
+Qed.
+
+Theorem deep_eq_nv : forall F t v, simple t = true -> wt t v = true -> (ftsize t < F)%nat ->
+  deep_eq F t v (nv t v) = true.
+Proof.
+  induction F as [|f IH]; intros t v Hs Hw Hf; [lia|].
+  rewrite deep_eq_S.
+  destruct (simple_cases t Hs) as [t Hp|u Hu|t e U He Hlt|t e U He Hlt].
+  - rewrite nv_prim by exact Hp. destruct v; cbn [wt] in Hw; revert Hp Hw;
+      destruct (under t); intros Hp Hw; try discriminate Hp; try discriminate Hw.
+    + apply eqb_reflx.
+    + apply bytes_eqb_refl.
+    + apply Z.eqb_refl.
+  - cbn [under]. cbn [ftsize] in Hf.
+    assert (Hv : v = GNil \/ exists x, v = GPtr x /\ wt u x = true).
+    { destruct v; cbn [wt under] in Hw; try discriminate Hw; eauto. }
+    destruct Hv as [->|(x & -> & Hx)]; cbn [nv]; [reflexivity|].
+    destruct (is_nil_head (xev false u x)) eqn:Hn.
+    + rewrite (spec_null u x false (S f) Hu Hx Hn) by lia. reflexivity.
+    + apply IH; [exact Hu|exact Hx|lia].
+  - rewrite (nv_slice t e v Hs U), U. destruct (wt_slice _ _ _ U Hw) as [Hl [->| ->]]; cbn [glist] in *.
+    + reflexivity.
+    + destruct (glist v) as [|x l] eqn:El; [reflexivity|].
+      apply deq_list_nv. intros y Hy. rewrite forallb_forall in Hl. apply IH; [exact He|auto|lia].
+  - rewrite (nv_map t e v Hs U), U. destruct (wt_map _ _ _ U Hw) as (Hl & _ & [->| ->]); cbn [gmap] in *.
+    + destruct (is_refl e); reflexivity.
+    + destruct (gmap v) as [|x l] eqn:El; [destruct (is_refl e); reflexivity|].
+      apply deq_map_nv. intros y Hy. rewrite forallb_forall in Hl. apply IH; [exact He|auto|lia].
+Qed.
+
+(* ---------- what Fold sends ---------- *)
+Lemma simple_not_iface e : simple e = true -> gtype_eqb e TIface = false.
+Proof. destruct e; try discriminate; reflexivity. Qed.
+
+Lemma glen_slice t e v : under t = TSlice e -> wt t v = true -> Fold.glen v = zlen (glist v).
+Proof. intros U H. destruct (wt_slice _ _ _ U H) as [_ [->| ->]]; reflexivity. Qed.
+
+Lemma glen_map t e v : under t = TMap e -> wt t v = true -> Fold.glen v = zlen (gmap v).
+Proof. intros U H. destruct (wt_map _ _ _ U H) as (_ & _ & [->| ->]); reflexivity. Qed.
+
+Lemma expand_typed_arr top e l :
+  flat_map expand [EXArr (typed_bt top e) (map (typed_sc top e) l)] = typed_arr top e l.
+Proof.
+  cbn [flat_map expand]. rewrite app_nil_r. unfold typed_arr. rewrite zlen_map, map_map. reflexivity.
+Qed.
+
+Lemma expand_typed_obj e kvs :
+  flat_map expand [EXObj (prim_bt e) (map (fun kv => (fst kv, xscalar e (snd kv))) kvs)] = typed_obj e kvs.
+Proof.
+  cbn [flat_map expand]. rewrite app_nil_r. unfold typed_obj. rewrite zlen_map. f_equal. f_equal.
+  induction kvs as [|kv kvs IH]; [reflexivity|]. cbn [map flat_map fst snd app]. rewrite IH. reflexivity.
+Qed.
+
+Lemma prim_fold_slice top e v : is_prim e = true ->
+  prim_fold top (TSlice e) v = Some [EXArr (typed_bt top e) (map (typed_sc top e) (glist v))].
+Proof. intro H. cbn [prim_fold]. rewrite H. reflexivity. Qed.
+
+Lemma prim_fold_map top e v : is_prim e = true ->
+  prim_fold top (TMap e) v = Some [EXObj (prim_bt e) (map (fun kv => (fst kv, xscalar e (snd kv))) (gmap v))].
+Proof. intro H. cbn [prim_fold]. rewrite H. reflexivity. Qed.
+
+Lemma prim_fold_prim top t v : is_prim t = true -> wt t v = true ->
+  prim_fold top t v = Some [EVal (pscalar t v)].
+Proof.
+  intros Hp Hw. destruct (wt_prim_scalar t v Hp Hw) as (s & E & _). unfold pscalar. 
+  destruct t; try discriminate Hp; cbn [prim_fold]; rewrite E; reflexivity.
+Qed.
+
+(* pointer chains *)
+Lemma base_simple t : simple t = true -> simple (snd (base_type t)) = true.
+Proof.
+  induction t; intro Hs; try discriminate Hs; try exact Hs.
+  cbn [simple] in Hs. cbn [base_type]. destruct (base_type t) as [n bt]. cbn [snd] in *. auto.
+Qed.
+
+Lemma ptr_chain : forall t v, simple t = true -> wt t v = true ->
+  (Fold.deref (fst (base_type t)) v = None -> xev false t v = [EVal SNil]) /\
+  (forall bv, Fold.deref (fst (base_type t)) v = Some bv ->
+     wt (snd (base_type t)) bv = true /\ xev false t v = xev false (snd (base_type t)) bv).
+Proof.
+  induction t; intros v Hs Hw; try discriminate Hs;
+    try (cbn [base_type fst snd Fold.deref]; split; [discriminate|];
+         intros bv E; injection E as <-; split; [exact Hw|reflexivity]).
+  cbn [simple] in Hs. cbn [base_type]. destruct (base_type t) as [n bt] eqn:Eb. cbn [fst snd] in *.
+  assert (Hv : v = GNil \/ exists x, v = GPtr x /\ wt t x = true).
+  { destruct v; cbn [wt under] in Hw; try discriminate Hw; eauto. }
+  destruct Hv as [->|(x & -> & Hx)]; cbn [Fold.deref xev].
+  - split; [reflexivity|discriminate].
+  - apply IHt; assumption.
+Qed.
+
+Definition fold_at (f : nat) : Prop :=
+  forall t v evs, simple t = true -> wt t v = true -> rf f false t v = (evs, None) ->
+    flat_map expand evs = xev false t v.
+
+Lemma Elems_xev f e l : fold_at f -> simple e = true -> forallb (wt e) l = true ->
+  forall evs, Elems f e l = (evs, None) -> flat_map expand evs = flat_map (xev false e) l.
+Proof.
+  intros IH He. induction l as [|x l IHl]; intros Hl evs H.
+  - cbn in H. injection H as <-. reflexivity.
+  - cbn [forallb] in Hl. apply andb_true_iff in Hl. destruct Hl as [Hx Hl].
+    change (Elems f e (x :: l)) with (rf f false e x ;; Elems f e l) in H.
+    apply fseq_ok in H. destruct H as (e1 & e2 & H1 & H2 & ->).
+    rewrite flat_map_app. cbn [flat_map]. rewrite (IH _ _ _ He Hx H1), (IHl Hl _ H2). reflexivity.
+Qed.
+
+Lemma prim_scalar_true e x : is_prim e = true -> wt e x = true -> prim_scalar true e x = Some (xscalar e x).
+Proof.
+  intros Hp Hw. unfold wt in Hw. destruct e; try discriminate Hp; destruct x; try discriminate Hw; reflexivity.
+Qed.
+
+Lemma Mapkeys_xev f e kvs : fold_at f -> simple e = true ->
+  forallb (fun kv => wt e (snd kv)) kvs = true ->
+  forall evs, Mapkeys f e kvs = (evs, None) ->
+    flat_map expand evs =
+    flat_map (fun kv => EKey (fst kv) :: (if is_prim e then [EVal (xscalar e (snd kv))] else xev false e (snd kv))) kvs.
+Proof.
+  intros IH He. induction kvs as [|[k x] l IHl]; intros Hl evs H.
+  - cbn in H. injection H as <-. reflexivity.
+  - cbn [forallb snd] in Hl. apply andb_true_iff in Hl. destruct Hl as [Hx Hl].
+    change (Mapkeys f e ((k, x) :: l)) with (fok [EKey k] ;; Mapval f e x ;; Mapkeys f e l) in H.
+    apply fseq_fok_l in H. destruct H as (e2 & H & ->).
+    apply fseq_ok in H. destruct H as (e1 & e3 & H1 & H2 & ->).
+    unfold Mapval in H1.
+    cbn [flat_map app fst snd expand]. rewrite flat_map_app. rewrite (IHl Hl _ H2).
+    destruct (is_prim e) eqn:Hp.
+    + rewrite (prim_scalar_true e x Hp Hx) in H1. injection H1 as <-.
+      cbn [flat_map app]. destruct (xscalar e x); reflexivity.
+    + rewrite (simple_not_iface e He) in H1. rewrite (IH _ _ _ He Hx H1). reflexivity.
+Qed.
+
+Lemma is_prim_under t : is_prim t = true -> under t = t.
+Proof. destruct t; try discriminate; reflexivity. Qed.
+
+Theorem fold_all : forall f, fold_at f.
+Proof.
+  induction f as [|f IH]; intros t v evs Hs Hw H; [rewrite rf_O in H; discriminate H|].
+  rewrite rf_S in H.
+  destruct t; try discriminate Hs.
+  - rewrite (prim_fold_prim false TBool v eq_refl Hw) in H. injection H as <-. reflexivity.
+  - rewrite (prim_fold_prim false TString v eq_refl Hw) in H. injection H as <-.
+    cbn [xev flat_map app]. destruct (pscalar TString v); reflexivity.
+  - rewrite (prim_fold_prim false (TNum k) v eq_refl Hw) in H. injection H as <-. reflexivity.
+  - (* pointer *)
+    cbn [prim_fold] in H. destruct (ptr_chain (TPtr t) v Hs Hw) as [P1 P2].
+    pose proof (base_simple (TPtr t) Hs) as Hb.
+    destruct (base_type (TPtr t)) as [n bt]. cbn [fst snd] in *.
+    destruct (Fold.deref n v) as [bv|].
+    + destruct (P2 bv eq_refl) as [Hwb ->]. apply (IH _ _ _ Hb Hwb H).
+    + injection H as <-. rewrite P1 by reflexivity. reflexivity.
+  - (* slice *)
+    cbn [simple] in Hs. destruct (is_prim t) eqn:Hp.
+    + rewrite prim_fold_slice in H by exact Hp. injection H as <-.
+      rewrite expand_typed_arr. cbn [xev]. rewrite Hp. reflexivity.
+    + cbn [prim_fold] in H. rewrite Hp in H.
+      apply fseq_fok_l in H. destruct H as (e2 & H & ->).
+      apply fseq_fok_r in H. destruct H as (e1 & H & ->).
+      destruct (wt_slice (TSlice t) t v eq_refl Hw) as [Hl _].
+      rewrite (glen_slice (TSlice t) t v eq_refl Hw).
+      cbn [xev]. rewrite Hp. cbn [app flat_map expand]. rewrite flat_map_app.
+      rewrite (Elems_xev f t _ IH Hs Hl _ H). reflexivity.
+  - (* map *)
+    cbn [simple] in Hs. destruct (is_prim t) eqn:Hp.
+    + rewrite prim_fold_map in H by exact Hp. injection H as <-.
+      rewrite expand_typed_obj. cbn [xev]. rewrite Hp. reflexivity.
+    + cbn [prim_fold] in H. rewrite Hp in H.
+      apply fseq_fok_l in H. destruct H as (e2 & H & ->).
+      apply fseq_fok_r in H. destruct H as (e1 & H & ->).
+      destruct (wt_map (TMap t) t v eq_refl Hw) as (Hl & _ & _).
+      rewrite (glen_map (TMap t) t v eq_refl Hw).
+      cbn [xev]. rewrite Hp. cbn [app flat_map expand]. rewrite flat_map_app.
+      rewrite (Mapkeys_xev f t _ IH Hs Hl _ H). rewrite Hp. reflexivity.
+  - (* named *)
+    cbn [simple] in Hs. cbn [prim_fold] in H. destruct t; try discriminate Hs.
+    + rewrite wt_named in Hw by reflexivity. destruct (wt_prim_scalar TBool v eq_refl Hw) as (s & E & _).
+      rewrite E in H. injection H as <-. cbn [xev]. unfold pscalar. rewrite E. reflexivity.
+    + rewrite wt_named in Hw by reflexivity. destruct (wt_prim_scalar TString v eq_refl Hw) as (s & E & _).
+      rewrite E in H. injection H as <-. cbn [xev]. unfold pscalar. rewrite E.
+      cbn [flat_map app]. destruct s; reflexivity.
+    + rewrite wt_named in Hw by reflexivity. destruct (wt_prim_scalar (TNum k) v eq_refl Hw) as (s & E & _).
+      rewrite E in H. injection H as <-. cbn [xev]. unfold pscalar. rewrite E. reflexivity.
+    + apply fseq_fok_l in H. destruct H as (e2 & H & ->).
+      apply fseq_fok_r in H. destruct H as (e1 & H & ->).
+      destruct (wt_slice (TNamed (TSlice t)) t v eq_refl Hw) as [Hl _].
+      rewrite (glen_slice (TNamed (TSlice t)) t v eq_refl Hw).
+      cbn [xev andb]. cbn [app flat_map expand]. rewrite flat_map_app.
+      rewrite (Elems_xev f t _ IH Hs Hl _ H). reflexivity.
+    + apply fseq_fok_l in H. destruct H as (e2 & H & ->).
+      apply fseq_fok_r in H. destruct H as (e1 & H & ->).
+      destruct (wt_map (TNamed (TMap t)) t v eq_refl Hw) as (Hl & _ & _).
+      rewrite (glen_map (TNamed (TMap t)) t v eq_refl Hw).
+      cbn [xev andb]. cbn [app flat_map expand]. rewrite flat_map_app.
+      rewrite (Mapkeys_xev f t _ IH Hs Hl _ H). reflexivity.
+Qed.
+
+Lemma Fast_none f v e : simple e = true -> is_prim e = false ->
+  Fast f v (TSlice e) = None /\ Fast f v (TMap e) = None.
+Proof.
+  intros Hs Hp. unfold Fast. cbn [prim_fold]. rewrite Hp.
+  destruct e; try discriminate Hs; try discriminate Hp; split; reflexivity.
+Qed.
+
+Lemma Anyr_rf_ok f t v evs : Anyr f t v = (evs, None) -> rf f false t v = (evs, None).
+Proof. unfold Anyr. destruct (cc_type t); [intro H; discriminate H|auto]. Qed.
+
+Theorem ftop_xev : forall f t v evs, simple t = true -> wt t v = true ->
+  ftop f t v = (evs, None) -> flat_map expand evs = xev true t v.
+Proof.
+  intros [|f] t v evs Hs Hw H; [rewrite ftop_O in H; discriminate H|].
+  rewrite ftop_S in H.
+  destruct t; try discriminate Hs.
+  - unfold Fast in H. rewrite (prim_fold_prim true TBool v eq_refl Hw) in H. injection H as <-. reflexivity.
+  - unfold Fast in H. rewrite (prim_fold_prim true TString v eq_refl Hw) in H. injection H as <-.
+    cbn [xev flat_map app]. destruct (pscalar TString v); reflexivity.
+  - unfold Fast in H. rewrite (prim_fold_prim true (TNum k) v eq_refl Hw) in H. injection H as <-. reflexivity.
+  - unfold Fast in H. cbn [prim_fold] in H. apply Anyr_rf_ok in H.
+    apply (fold_all f _ _ _ Hs Hw H).
+  - pose proof Hs as Hs'. cbn [simple] in Hs. destruct (is_prim t) eqn:Hp.
+    + unfold Fast in H. rewrite prim_fold_slice in H by exact Hp. injection H as <-.
+      rewrite expand_typed_arr. cbn [xev]. rewrite Hp. reflexivity.
+    + rewrite (proj1 (Fast_none f v t Hs Hp)) in H. apply Anyr_rf_ok in H.
+      rewrite (fold_all f _ _ _ Hs' Hw H). cbn [xev]. rewrite Hp. reflexivity.
+  - pose proof Hs as Hs'. cbn [simple] in Hs. destruct (is_prim t) eqn:Hp.
+    + unfold Fast in H. rewrite prim_fold_map in H by exact Hp. injection H as <-.
+      rewrite expand_typed_obj. cbn [xev]. rewrite Hp. reflexivity.
+    + rewrite (proj2 (Fast_none f v t Hs Hp)) in H. apply Anyr_rf_ok in H.
+      rewrite (fold_all f _ _ _ Hs' Hw H). cbn [xev]. rewrite Hp. reflexivity.
+  - assert (HF : Fast f v (TNamed t) = None) by reflexivity. rewrite HF in H.
+    pose proof Hs as Hs'. cbn [simple] in Hs. destruct t; try discriminate Hs.
+    + apply Anyr_rf_ok in H. apply (fold_all f _ _ _ Hs' Hw H).
+    + apply Anyr_rf_ok in H. apply (fold_all f _ _ _ Hs' Hw H).
+    + apply Anyr_rf_ok in H. apply (fold_all f _ _ _ Hs' Hw H).
+    + destruct (is_prim t) eqn:Hp.
+      * unfold Fast in H. rewrite prim_fold_slice in H by exact Hp. injection H as <-.
+        rewrite expand_typed_arr. cbn [xev andb]. rewrite Hp. reflexivity.
+      * rewrite (proj1 (Fast_none f v t Hs Hp)) in H. apply Anyr_rf_ok in H.
+        rewrite (fold_all f _ _ _ Hs' Hw H). cbn [xev andb]. rewrite Hp. reflexivity.
+    + destruct (is_prim t) eqn:Hp.
+      * unfold Fast in H. rewrite prim_fold_map in H by exact Hp. injection H as <-.
+        rewrite expand_typed_obj. cbn [xev andb]. rewrite Hp. reflexivity.
+      * rewrite (proj2 (Fast_none f v t Hs Hp)) in H. apply Anyr_rf_ok in H.
+        rewrite (fold_all f _ _ _ Hs' Hw H). cbn [xev andb]. rewrite Hp. reflexivity.
+Qed.
+
+Lemma fold_value_ftop t v : simple t = true ->
+  fold_value t v = ftop (4 * (tsize t + vsize v) + 8) t v.
+Proof. intro Hs. unfold fold_value. destruct v; try reflexivity. destruct t; try discriminate Hs; reflexivity. Qed.
+
+(* C11 (direct route), the struct- and interface-free fragment: if Fold accepts a well-typed
+   value of such a type, unfolding the events into a zero target of the same type completes
+   and yields a value deeply equal to the original (nil and empty containers identified, a
+   pointer to a nil pointer identified with nil). *)
+Theorem C11_direct_partial : forall T v evs,
+  simple T = true -> wt T v = true ->
+  fold_value T v = (evs, None) -> ucc_type T = None ->
+  exists v', unfold_value T (zero_of T) evs = UDone v' /\
+             forall F, (ftsize T < F)%nat -> deep_eq F T (omit_view F T v) v' = true.
+Proof.
+  intros T v evs Hs Hw Hf Hu. exists (nv T v). split.
+  - rewrite fold_value_ftop in Hf by exact Hs.
+    pose proof (ftop_xev _ _ _ _ Hs Hw Hf) as Hx.
+    unfold unfold_value. rewrite Hu, Hx.
+    rewrite <- (app_nil_r (xev true T v)) at 2.
+    rewrite (unfold_all _ T v true [] Hs Hw); [reflexivity|lia].
+  - intros F HF. rewrite omit_view_simple by exact Hs. apply deep_eq_nv; assumption.
+Qed.
+Print Assumptions C11_direct_partial.
+
+(* the setup check accepts every type of the fragment *)
+Lemma ucc_simple : forall F t, simple t = true -> (ftsize t <= F)%nat -> ucc F t = None.
+Proof.
+  induction F as [|f IH]; intros t Hs Hf; [pose proof (ftsize_pos t); lia|].
+  destruct (simple_cases t Hs) as [t Hp|u Hu|t e U He Hlt|t e U He Hlt]; cbn [ucc].
+  - destruct (under t); try discriminate Hp; reflexivity.
+  - cbn [under]. apply IH; [exact Hu|cbn [ftsize] in Hf; lia].
+  - rewrite U. destruct (prim_kind e || gtype_eqb e TIface); [reflexivity|]. apply IH; [exact He|lia].
+  - rewrite U. destruct (prim_kind e || gtype_eqb e TIface); [reflexivity|]. apply IH; [exact He|lia].
+Qed.
+
+Corollary C11_direct_partial' : forall T v evs,
+  simple T = true -> wt T v = true -> fold_value T v = (evs, None) ->
+  exists v', unfold_value T (zero_of T) evs = UDone v' /\
+             forall F, (ftsize T < F)%nat -> deep_eq F T (omit_view F T v) v' = true.
+Proof.
+  intros T v evs Hs Hw Hf. apply C11_direct_partial; try assumption.
+  unfold ucc_type. apply ucc_simple; [exact Hs|lia].
+Qed.
+Print Assumptions C11_direct_partial'.
+
+(* the listing order of maps: adjacent keys increasing is the same as [ssorted] *)
+Fixpoint asorted (l : list bytes) : bool :=
+  match l with
+  | a :: ((b :: _) as r) => bytes_ltb a b && asorted r
+  | _ => true
+  end.
+
+Lemma bytes_ltb_trans : forall a b c, bytes_ltb a b = true -> bytes_ltb b c = true -> bytes_ltb a c = true.
+Proof.
+  induction a as [|x a IH]; intros [|y b] [|z c] H1 H2; cbn [bytes_ltb] in *; try discriminate; try reflexivity.
+  destruct (x <? y) eqn:E1.
+  - destruct (y <? z) eqn:E2; [replace (x <? z) with true by lia; reflexivity|].
+    destruct (z <? y) eqn:E3; [discriminate H2|]. replace (x <? z) with true by lia. reflexivity.
+  - destruct (y <? x) eqn:E1'; [discriminate H1|].
+    destruct (y <? z) eqn:E2; [replace (x <? z) with true by lia; reflexivity|].
+    destruct (z <? y) eqn:E3; [discriminate H2|].
+    replace (x <? z) with false by lia. replace (z <? x) with false by lia. eapply IH; eauto.
+Qed.
+
+Lemma asorted_ssorted l : asorted l = true -> ssorted l = true.
+Proof.
+  induction l as [|a l IH]; intro H; [reflexivity|].
+  cbn [ssorted]. destruct l as [|b l]; [reflexivity|].
+  cbn [asorted] in H. apply andb_true_iff in H. destruct H as [Hab H].
+  specialize (IH H). rewrite IH, andb_true_r.
+  cbn [ssorted] in IH. apply andb_true_iff in IH. destruct IH as [Hb _].
+  cbn [forallb]. rewrite Hab. cbn [andb].
+  rewrite forallb_forall in *. intros c Hc. eapply bytes_ltb_trans; [exact Hab|auto].
+Qed.
